@@ -17,7 +17,7 @@ func init() {
 			"(a map keyed by hash with bool or struct{} values that its methods write), (yield-once) every return that yields a commit is reachable only across the 'not seen' edge of a lookup of that commit's hash in the seen set — in Next itself, " +
 			"or in the receiver's helper that produced the commit — and only after the hash was recorded in the seen set; (parents-followed) the walker mentions the parents of the commit it yields (ParentHashes, Parents(), ParentNode or a helper that " +
 			"receives the commit); (walkers-inventory) the set of seen-keeping walkers is compared with a floor. The topological commit-graph walker removes duplicates by in-degree counting and is outside this rule; iterators without a seen set " +
-			"delegate to a wrapped walker. Not decided: that exactly git rev-list's commits are yielded, ordering contracts, time and tail limits, agreement of commit-graph-backed walks.",
+			"delegate to a wrapped walker; (explore-heap-ordered-by-cutoff-key) the topological commit-graph walker, which counts in-degrees instead of keeping a seen set, cuts its exploration on GenerationV2()/Generation() of the explore heap's top, and the comparator that heap is built with orders its operands by those same accessors (ordered by commit time, clock skew makes the cut leave edges uncounted and commits come out twice). Not decided: that exactly git rev-list's commits are yielded, ordering contracts, time and tail limits, agreement of commit-graph-backed walks.",
 		Assumptions: []string{},
 		Run:         runC43,
 	})
